@@ -18,7 +18,7 @@ open Decstr.Model Decstr.Spec Decstr.Proofs
 * a refusal names the type's capacity and a needed width that is larger, a multiple of 4 bytes and sufficient. -/
 theorem C07_alloc (T : Ty) (d : Nat) (hd : 0 < d) (e : Option Int) :
     match T.withPrecision d e with
-    | .ok b => ∃ n, b = Buf.zero (4 * n) ∧ 0 < n ∧ (Fmt.mk n).fitsB d e = true ∧
+    | .ok b => ∃ n, b = Buf.zero (4 * n) ∧ 0 < n ∧ (Fmt.mk n).fitsB d e = true ∧ (∀ cap, T.capN = some cap → n ≤ cap) ∧
         (match T.fixedN with
          | some w => n = w
          | none => need d e ≤ n ∧ n ≤ need d e + 1 ∧ (need d e ≤ 5 → n = need d e))
@@ -35,7 +35,7 @@ theorem C07_alloc (T : Ty) (d : Nat) (hd : 0 < d) (e : Option Int) :
       · have := h6 h'; omega
       · omega
     · simp only [h, if_false]
-      exact ⟨1, rfl, by decide, fits_mono n 1 d e h2 (by omega) h3, rfl⟩
+      exact ⟨1, rfl, by decide, fits_mono n 1 d e h2 (by omega) h3, by intro cap hc; simp [Ty.capN] at hc; omega, rfl⟩
   · by_cases h : 4 * n > 8
     · simp only [h, if_true]
       refine ⟨2, n, rfl, ?_, rfl, by omega, h3⟩
@@ -43,7 +43,7 @@ theorem C07_alloc (T : Ty) (d : Nat) (hd : 0 < d) (e : Option Int) :
       · have := h6 h'; omega
       · omega
     · simp only [h, if_false]
-      exact ⟨2, rfl, by decide, fits_mono n 2 d e h2 (by omega) h3, rfl⟩
+      exact ⟨2, rfl, by decide, fits_mono n 2 d e h2 (by omega) h3, by intro cap hc; simp [Ty.capN] at hc; omega, rfl⟩
   · by_cases h : 4 * n > 16
     · simp only [h, if_true]
       refine ⟨4, n, rfl, ?_, rfl, by omega, h3⟩
@@ -51,7 +51,7 @@ theorem C07_alloc (T : Ty) (d : Nat) (hd : 0 < d) (e : Option Int) :
       · have := h6 h'; omega
       · omega
     · simp only [h, if_false]
-      exact ⟨4, rfl, by decide, fits_mono n 4 d e h2 (by omega) h3, rfl⟩
+      exact ⟨4, rfl, by decide, fits_mono n 4 d e h2 (by omega) h3, by intro cap hc; simp [Ty.capN] at hc; omega, rfl⟩
   · by_cases h : 4 * n > 20
     · simp only [h, if_true]
       refine ⟨5, n, rfl, ?_, rfl, by omega, h3⟩
@@ -59,8 +59,8 @@ theorem C07_alloc (T : Ty) (d : Nat) (hd : 0 < d) (e : Option Int) :
       · have := h6 h'; omega
       · omega
     · simp only [h, if_false]
-      exact ⟨n, rfl, h2, h3, h4, h5, h6⟩
-  · exact ⟨n, rfl, h2, h3, h4, h5, h6⟩
+      exact ⟨n, rfl, h2, h3, by intro cap hc; simp [Ty.capN] at hc; omega, h4, h5, h6⟩
+  · exact ⟨n, rfl, h2, h3, by intro cap hc; simp [Ty.capN] at hc, h4, h5, h6⟩
 
 /-- **C07 (Bitstring).** `Bitstring` fails only when 160 bits do not suffice. -/
 theorem C07_bitstring_ok_iff (d : Nat) (hd : 0 < d) (e : Option Int) :
@@ -69,7 +69,7 @@ theorem C07_bitstring_ok_iff (d : Nat) (hd : 0 < d) (e : Option Int) :
   constructor
   · rintro ⟨b, hb⟩
     rw [hb] at h
-    obtain ⟨n, hn, _, _, h4⟩ := h
+    obtain ⟨n, hn, _, _, _, h4⟩ := h
     simp only [Ty.fixedN] at h4
     have : n ≤ 5 := by
       simp only [Ty.withPrecision, Ty.withAtLeastBytes] at hb
